@@ -35,7 +35,7 @@ MANIFEST_TEXT = ('Every dataset profile of n = 1..7 (quick) / 1..10 (thorough) s
                  'int keys, chunk_entries(n\') for every n\' = 1..n+1, chunk_lines on file buffers, user streamable function with '
                  'sum and list reductions, get_reverse_complement on a stream} and per-chromosome pipelines on genomes of 1..3 '
                  'chromosomes {pileup sum/data, mask data, two reductions sharing a node, histogram reduction, values under '
-                 'intervals: row max and column mean} evaluated with bnp.compute: streamed result == in-memory result; '
+                 'intervals: row max and column mean; stranded=True intervals extended to a size: pileup sum/data, mask data} evaluated with bnp.compute: streamed result == in-memory result; '
                  're-chunking yields chunks of exactly n\' except a last chunk of 1..n\'. Long entries: four sequences of 400 001 bases x all 8 '
                  'chunkings (chunks of 0.4 to 1.6 million k-mers) x count_kmers k = 1, 2 against whole-array NumPy counts. For chunkings with <= 2 cuts also '
                  'a chunk without entries at the start, after the first chunk and at the end of the stream.')
@@ -384,6 +384,10 @@ def pipe_registry():
         'histogram_reduction': lambda mk_gi: val(bnp.compute(np.histogram(mk_gi().get_pileup(), bins=[0, 1, 2, 5]))),
         'under_intervals_rowmax': lambda mk_gi: under(mk_gi(), mk_gi(), 'rowmax'),
         'under_intervals_colmean': lambda mk_gi: under(mk_gi(), mk_gi(), 'colmean'),
+        # the non-default stranded=True route (strand-aware extension before the pileup)
+        'stranded_extended_pileup_sum': lambda mk_gi: val(bnp.compute(mk_gi().extended_to_size(3).get_pileup().sum())),
+        'stranded_extended_pileup_data': lambda mk_gi: rows_of(bnp.compute(mk_gi().extended_to_size(3).get_pileup().get_data())),
+        'stranded_mask_data': lambda mk_gi: rows_of(bnp.compute(mk_gi().get_mask().get_data())),
     }
 
 
@@ -394,14 +398,24 @@ def run_pipeline_case(res, n_chrom, profile, cuts, pname, preg):
     ents = pipeline_entries(n_chrom, profile)
     g = bnp.Genome.from_dict({'chr%d' % (i + 1): 7 for i in range(n_chrom)})
 
+    stranded = pname.startswith('stranded')
+    if stranded:
+        from bionumpy.datatypes import StrandedInterval
+        strand_of = {tuple(e): '+-'[i % 2] for i, e in enumerate(ents)}
+
     def tab(rs):
+        if stranded:
+            return StrandedInterval([r[0] for r in rs], [r[1] for r in rs], [r[2] for r in rs], [strand_of[tuple(r)] for r in rs])
         return Interval([r[0] for r in rs], [r[1] for r in rs], [r[2] for r in rs])
 
+    kw = {'stranded': True} if stranded else {}
+
     def mem():
-        return g.get_intervals(tab(ents))
+        return g.get_intervals(tab(ents), **kw)
 
     def streamed():
-        return g.get_intervals(NpDataclassStream(iter([tab(c) for c in chunks_of(ents, cuts)]), dataclass=Interval))
+        return g.get_intervals(NpDataclassStream(iter([tab(c) for c in chunks_of(ents, cuts)]),
+                                                 dataclass=StrandedInterval if stranded else Interval), **kw)
 
     case = {'part': 'pipeline', 'n_chrom': n_chrom, 'profile': list(profile), 'cuts': list(cuts), 'pipe': pname}
     feats = {'comp': 'pipeline:' + pname, 'chromosome_without_data': len(profile) < n_chrom}
